@@ -82,7 +82,7 @@ func uvar(v uint64) []byte { return binary.AppendUvarint(nil, v) }
 
 // C06 — hostile or corrupted input yields an error, never a crash or bad column.
 func C06(c *vk.Ctx) {
-	c.Rule("corpus = one valid block per registry composition (rows built from the boundary alphabet; for LowCardinality compositions also the same block as a server may write it, with 16- and 64-bit keys) at revision 54460 and the C17 messages; mutations: (a) every byte offset x {8 bit flips, 00, FF}; (b) at every byte offset an 8-byte little-endian field overwritten with each of {0, 1, 127, 128, 255, 256, 65535, 65536, 2^31-1, 2^31, 2^32-1, 2^32, 2^40, 2^62, 2^63-256, 2^63-16, 2^63-8, 2^63-4, 2^63-3, 2^63-2, 2^63-1, 2^63, 2^63+1, 2^64-2, 2^64-1} (offsets, dictionary sizes, key counts, LowCardinality meta) and the byte replaced by the varint encoding of the same values (row / column counts, string lengths); (c) splices: prefix of one block + suffix of another block of the same column at every offset; (d) well-formed blocks of another shape than the one-column target (two columns with rows and as zero-row headers, in both orders; no columns at all, with and without a row count); (e) block headers whose column type is a parameterised family with ANY character string of length <= 4 over {' a = 1 , space - ( )} as parameter list, with 0 rows and with 1 claimed row, through Auto and into an inferring enum target. Each mutant is decoded through the typed target and through Auto in a worker with a 3 GiB address-space limit and the block row cap lowered to 65536; oracle: returns (watchdog 30 s), no panic, process survives, and on success every column reports the block's row count and Row(i) works for all i. distinct_nontrivial = mutants evaluated (each is a distinct byte string by construction).")
+	c.Rule("corpus = one valid block per registry composition (rows built from the boundary alphabet; for LowCardinality compositions also the same block as a server may write it, with 16- and 64-bit keys) at revision 54460 and the C17 messages; mutations: (a) every byte offset x {8 bit flips, 00, FF}; (b) at every byte offset an 8-byte little-endian field overwritten with each of {0, 1, 127, 128, 255, 256, 65535, 65536, 2^31-1, 2^31, 2^32-1, 2^32, 2^40, 2^62, 2^63-256, 2^63-16, 2^63-8, 2^63-4, 2^63-3, 2^63-2, 2^63-1, 2^63, 2^63+1, 2^64-2, 2^64-1} (offsets, dictionary sizes, key counts, LowCardinality meta) and the byte replaced by the varint encoding of the same values (row / column counts, string lengths); (c) splices: prefix of one block + suffix of another block of the same column at every offset; (d) well-formed blocks of another shape than the one-column target (two columns with rows and as zero-row headers, in both orders; no columns at all, with and without a row count); (e) block headers whose column type is a parameterised family with ANY character string of length <= 4 over {' a = 1 , space - ( )} as parameter list, with 0 rows and with 1 claimed row, through Auto and into an inferring enum target; (e2) 14 parameterised type shapes (FixedString, DateTime64, Decimal, enums, and wrappers of FixedString) x 16 numeric parameters from 255 to beyond 2^64 and negative, in blocks claiming 0 / 1 / 2 / 4 rows, through Auto. Each mutant is decoded through the typed target and through Auto in a worker with a 3 GiB address-space limit and the block row cap lowered to 65536; oracle: returns (watchdog 30 s), no panic, process survives, and on success every column reports the block's row count and Row(i) works for all i. distinct_nontrivial = mutants evaluated (each is a distinct byte string by construction).")
 	c.Watchdog(30*time.Second, "C06/does-not-terminate")
 	rev := 54460
 	quick := c.Quick()
@@ -310,6 +310,75 @@ func C06(c *vk.Ctx) {
 			}
 		}
 		rec(nil)
+	}
+	// (e2) huge numeric parameters in header types: a size, precision or member value taken from
+	// the type string must never drive an allocation or an index. Blocks claiming 0 / 1 / 2 / 4
+	// rows followed by 64 zero bytes, through Auto; a decode that succeeds must report the
+	// block's row count and every row must be readable
+	{
+		nums := []string{"255", "256", "513", "65536", "2147483647", "2147483648", "4294967296", "1099511627776", "4611686018427387904", "9223372036854775807", "9223372036854775808",
+			"18446744073709551615", "18446744073709551616", "99999999999999999999999", "-1", "-9223372036854775808"}
+		shapes := []string{"FixedString(%s)", "DateTime64(%s)", "Decimal(%s, 2)", "Decimal(9, %s)", "Decimal32(%s)", "Enum8('a' = %s)", "Enum16('a' = %s)", "Array(FixedString(%s))", "Nullable(FixedString(%s))",
+			"LowCardinality(FixedString(%s))", "Map(String, FixedString(%s))", "Tuple(FixedString(%s), UInt8)", "Array(Array(FixedString(%s)))", "DateTime64(%s, 'UTC')"}
+		var n int64
+		for _, sh := range shapes {
+			for _, num := range nums {
+				ts := fmt.Sprintf(sh, num)
+				for _, rows := range []int{0, 1, 2, 4} {
+					n++
+					id := fmt.Sprintf("header-param/%s/rows=%d", ts, rows)
+					if !((c.Only == "" && c.Mine(n)) || c.Only == id) || c.Resuming(id) {
+						continue
+					}
+					var w refwire.W
+					w.UVarint(1)
+					w.Byte(0)
+					w.UVarint(2)
+					w.I32(-1)
+					w.UVarint(0)
+					w.UVarint(1)
+					w.UVarint(uint64(rows))
+					w.Str("col")
+					w.Str(ts)
+					w.Byte(0)
+					if rows > 0 {
+						w.Raw(make([]byte, 64))
+					}
+					c.Current(id)
+					c.Checkpoint()
+					msg, fn := vk.Recover(func() {
+						var blk proto.Block
+						var res proto.Results
+						if err := blk.DecodeBlock(proto.NewReader(bytes.NewReader(w.B)), rev, res.Auto()); err != nil || rows == 0 {
+							return
+						}
+						if len(res) != 1 || res[0].Data.Rows() != rows {
+							got := -1
+							if len(res) == 1 {
+								got = res[0].Data.Rows()
+							}
+							c.Violation("C06/inconsistent-column/header-param", id, fmt.Sprintf("a block of %d rows with column type %q decodes without error into a column of %d rows", rows, ts, got), nil)
+							return
+						}
+						if col, ok := unwrapAuto(res[0].Data); ok && hasRow(col) {
+							if wcol, err := reg.Wrap(col, ts); err == nil {
+								for i := 0; i < col.Rows(); i++ {
+									wcol.Row(i)
+								}
+							}
+						}
+					})
+					if msg != "" {
+						if len(msg) > 300 {
+							msg = msg[:300]
+						}
+						c.Violation("C06/panic/"+fn+"/header-param", id, fmt.Sprintf("block header with column type %q (%d rows) panics: %s", ts, rows, msg), nil)
+					}
+					c.Eval("hostile header types", 1)
+					c.DistinctN(1)
+				}
+			}
+		}
 	}
 	// protocol messages: every single-byte mutation and huge varints must not panic
 	for mi, m := range c17Messages() {
